@@ -15,6 +15,7 @@ mod c15;
 mod targets;
 mod c02;
 mod nuts;
+mod c14;
 
 use util::Out;
 
@@ -46,6 +47,7 @@ fn main() {
         "C02" => c02::run(&mut out),
         "C03" => nuts::run_c03(&mut out),
         "C04" => nuts::run_c04(&mut out),
+        "C14" => c14::run(&mut out),
         _ => {
             eprintln!("unknown property {prop}");
             std::process::exit(2);
